@@ -24,12 +24,12 @@ MUTANTS = {  # model-level sensitivity: each wrong client must violate one of th
 INVS = "ScenarioSane Progress NoLeak OuterOK InnerOK DecryptOK AcceptReported RejectionCarriesRetry VerifyNameRule OutcomeRule"
 
 
-def mc_cfg(ctx, name, cfgids, aeads, maxlens, names, shapes, sample, mutant):
+def mc_cfg(ctx, name, cfgids, aeads, maxlens, names, shapes, usages, sample, mutant):
     st = lambda xs: "{" + ", ".join(str(x) for x in xs) + "}"
     open(ctx.scratch + "/%s.cfg" % name, "w").write(
-        "CONSTANTS\n  CfgIds = %s\n  AeadIds = %s\n  MaxLens = %s\n  NameSets = %s\n  ShapeIdx = %s\n  Sample = %d\n  Mutant = \"%s\"\n"
+        "CONSTANTS\n  CfgIds = %s\n  AeadIds = %s\n  MaxLens = %s\n  NameSets = %s\n  ShapeIdx = %s\n  UsageIdx = %s\n  Sample = %d\n  Mutant = \"%s\"\n"
         "INIT Init\nNEXT Next\nINVARIANTS %s\nCONSTRAINT Emit\nCHECK_DEADLOCK FALSE\n"
-        % (st(cfgids), st(aeads), st(maxlens), st(names), st(shapes), sample, mutant, INVS))
+        % (st(cfgids), st(aeads), st(maxlens), st(names), st(shapes), st(usages), sample, mutant, INVS))
     return name
 
 
@@ -91,11 +91,11 @@ def run(ctx):
     ctx.write_json("ech_ids.json", {k: {f: v[f] for f in ("kinds", "groups", "shares")} for k, v in ids.items()})
 
     # ---- model checking: the grid + the properties on model-built bytes; scenarios out
-    full = ([0, 7, 255], [1, 2, 3], [0, 32, 255], [1, 2], [1, 2, 3, 4])
-    sample = 99 if not ctx.quick else ctx.seed % 6
+    full = ([0, 7, 255], [1, 2, 3], [0, 32, 255], [1, 2], [1, 2, 3, 4], [1, 2, 3, 4, 5])
+    sample = ctx.seed % 6 + (0 if ctx.quick else 10)
     # (the model-level mutants run side by side with it: a wrong client in the model must violate the matching invariant)
     def mutant(m):
-        r = ctx.tlc("ECH_MC", cfg=mc_cfg(ctx, "ECH_MC_mut_" + m.replace("-", "_"), [7], [1], [32], [1], [1], 99, m), workers=1, timeout=600, count=False)
+        r = ctx.tlc("ECH_MC", cfg=mc_cfg(ctx, "ECH_MC_mut_" + m.replace("-", "_"), [7], [1], [32], [1], [1], [1, 3], 99, m), workers=1, timeout=600, count=False)
         return m, set(r.violated)
     with cf.ThreadPoolExecutor(max_workers=7) as ex:
         fmc = ex.submit(lambda: ctx.tlc("ECH_MC", cfg=mc_cfg(ctx, "ECH_MC_run", *full, sample, "none"), workers=8 if ctx.quick else 12, timeout=1500))
@@ -144,19 +144,27 @@ def run(ctx):
         ev2 = ctx.drv("ech", {"scenarios": again}, prog="ech", timeout=1500, name="ech_repro")
         rej2 = {(r[0], r[1], r[2]) for r in validate(ctx, split(ev2), min(shards, max(1, len(again) // 50)), "repro", count=False)}
         seen = set()
-        # a rejection that also occurs with a single-config list keeps its signature; one that needs a longer list names the list shape
-        plain = {sig_of(scns[sc], kind, detail) for sc, kind, detail in rej if scns[sc]["shape"] == "single" and (sc, kind, detail) in rej2}
+        # A signature names the list shape / the caller usage only when the rejection depends on it: when, among the scenarios
+        # of the failing usages (shapes), some tested shape (usage) does not show it.
+        ok2 = [(sc, kind, detail) for sc, kind, detail in rej if (sc, kind, detail) in rej2]
+        fails = {}
+        for sc, kind, detail in ok2:
+            f = fails.setdefault(sig_of(scns[sc], kind, detail), {"shape": set(), "usage": set()})
+            f["shape"].add(scns[sc]["shape"]); f["usage"].add(scns[sc]["usage"])
+        def depends(sig, dim, other):
+            f = fails[sig]
+            tested = {x[dim] for x in scns if x[other] in f[other]}
+            return f[dim] != tested
         for sc, kind, detail in rej:
             s = scns[sc]
             if (sc, kind, detail) not in rej2:
                 unrepro.append((sc, kind, detail))
                 continue
             r = results[sc]
-            sig = sig_of(s, kind, detail)
-            if sig not in plain:
-                sig += ":list=" + s["shape"]
-            ctx.finding(sig, "%s, config list %s, server %s, certificate valid for %s: %s %s; client error [%s] %s; server error %s"
-                        % (s["id"], s["shape"], s["server"], s["cert"], kind, clean(detail), r["errtype"], r["cerr"][:120], r["serr"][:120]),
+            base = sig_of(s, kind, detail)
+            sig = base + (":list=" + s["shape"] if depends(base, "shape", "usage") else "") + (":usage=" + s["usage"] if depends(base, "usage", "shape") else "")
+            ctx.finding(sig, "%s, usage %s, config list %s, server %s, certificate valid for %s: %s %s; client error [%s] %s; server error %s"
+                        % (s["id"], s["usage"], s["shape"], s["server"], s["cert"], kind, clean(detail), r["errtype"], r["cerr"][:120], r["serr"][:120]),
                         {"scenario": brief(s), "kind": kind, "detail": detail,
                          "observed": {k: r[k] for k in ("errtype", "cerr", "serr", "cok", "sok", "echo")} if sig not in seen else "see first case"})
             seen.add(sig)
@@ -247,8 +255,12 @@ def run(ctx):
            "rule": "terminal states of ECH_MC = ECH-capable IDs (from the dumped extension lists) x {config_id 0/7/255} x {AEAD 1/2/3} x {maximum_name_length 0/32/255} "
                    "x {2 name pairs} x ECHConfigList shape {single, [usable, second usable], [usable, unknown version, unsupported KEM], [unknown version, unsupported KEM, usable]} x server {accept, accept after HRR for each classical group without share, reject with 0/1/2 retry configs, reject after HRR, no ECH} "
                    "x certificate {ServerName, public name, both, neither}; %s; every scenario replayed once, rejected ones twice; distinct = distinct scenarios"
-                   % ("quick: config x AEAD x max-length reduced to a Latin square chosen by VERIF_SEED (a ninth of the product), name pair and list shape tied to it (each shape with every ID, server behaviour and certificate)" if ctx.quick else "full product"),
-           "capable_ids": capable, "by_server": by("server"), "by_list_shape": by("shape"), "by_cert": by("cert"), "events": len(events), "observed": obs,
+                   % ("quick: config x AEAD x max-length reduced to a Latin square chosen by VERIF_SEED (a ninth of their product), name pair, list shape and caller usage "
+                      "{Handshake only, BuildHandshakeState once/twice before, build+SetClientRandom, build+SetSNI(same name)} tied to it (each shape and each usage with every ID, server behaviour and certificate)"
+                      if ctx.quick else
+                      "thorough: config x AEAD x max-length reduced to a Latin square chosen by VERIF_SEED (a third: every pair of values occurs), name pair tied to it, "
+                      "full product with list shape x caller usage x ID x server behaviour x certificate"),
+           "capable_ids": capable, "by_server": by("server"), "by_list_shape": by("shape"), "by_usage": by("usage"), "by_cert": by("cert"), "events": len(events), "observed": obs,
            "model_mutants_rejected": sorted(MUTANTS), "binding_canaries": [c[0] for c in canaries],
            "rejected_scenarios": len(bad), "samples": [brief(scns[0]), brief(scns[len(scns) // 2]), brief(scns[-1])], "exhaustive": not ctx.quick}
     return "model_checking", cov, [
